@@ -244,6 +244,7 @@ var optionReductions = []func(*Scenario) bool{
 	},
 	func(c *Scenario) bool { ok := c.Options.OnError != ""; c.Options.OnError = ""; return ok },
 	func(c *Scenario) bool { ok := c.OrderSeed != 0; c.OrderSeed = 0; return ok },
+	func(c *Scenario) bool { ok := len(c.SharedMW) > 0; c.SharedMW = nil; return ok },
 	func(c *Scenario) bool { ok := c.Pool.DropN != 0; c.Pool.DropN = 0; return ok },
 	func(c *Scenario) bool { ok := c.Pool.Policy != "lifo"; c.Pool.Policy = "lifo"; return ok },
 	func(c *Scenario) bool {
